@@ -156,6 +156,7 @@ type workerMsg struct {
 	Plan   *drv.Plan `json:"plan,omitempty"` // present when the run has violations
 	Hang   bool      `json:"hang,omitempty"`
 	Done   bool      `json:"done,omitempty"`
+	Mode   string    `json:"mode,omitempty"` // sub-mode of the plan (evidence: one sample per mode)
 	// Retire: the run left goroutines of the code under test behind (a hang
 	// inside the simulation); its result has been sent, the worker ends and
 	// the coordinator starts a fresh one at the next run.
@@ -187,7 +188,7 @@ func Worker(c *Check, seed uint64, tier string, start, stride, count int, deadli
 		go func() { done <- SafeExec(c, p) }()
 		select {
 		case out := <-done:
-			m := workerMsg{Run: i, Out: out, Digest: PlanDigest(p)}
+			m := workerMsg{Run: i, Out: out, Digest: PlanDigest(p), Mode: p.Mode}
 			if len(out.Violations) > 0 || out.Foreign != nil {
 				if out.Schedule != nil && !p.UseSchedule {
 					// make the schedule explicit so that it can be replayed and minimised
@@ -375,6 +376,7 @@ func Coordinate(c *Check, tier string, self string) int {
 		states       map[string]bool
 		simMs        int64
 		samples      []interface{}
+		sampleModes  map[string]bool
 		foreign      map[string]int
 		foreignN     int
 		vios         map[string]*vioRec
@@ -383,7 +385,7 @@ func Coordinate(c *Check, tier string, self string) int {
 		crashSigs    map[string]int
 		crashes      int
 	}
-	a := &agg{nontrivial: map[string]bool{}, digests: map[string]bool{}, probes: map[string]int{}, faults: map[string]int{}, stats: map[string]int{}, states: map[string]bool{}, foreign: map[string]int{}, vios: map[string]*vioRec{}}
+	a := &agg{nontrivial: map[string]bool{}, digests: map[string]bool{}, probes: map[string]int{}, faults: map[string]int{}, stats: map[string]int{}, states: map[string]bool{}, sampleModes: map[string]bool{}, foreign: map[string]int{}, vios: map[string]*vioRec{}}
 
 	var wg sync.WaitGroup
 	runWorker := func(widx int) {
@@ -464,8 +466,15 @@ func Coordinate(c *Check, tier string, self string) int {
 						a.states[s] = true
 					}
 					a.simMs += m.Out.SimMs
-					if m.Out.Sample != nil && len(a.samples) < 3 {
-						a.samples = append(a.samples, m.Out.Sample)
+					// samples: the first three runs, plus the first run of every
+					// further sub-mode (so that every mode a check has shows one case)
+					if m.Out.Sample != nil && (len(a.samples) < 3 || (!a.sampleModes[m.Mode] && len(a.samples) < 10)) {
+						smp := m.Out.Sample
+						if m.Mode != "" {
+							smp = map[string]interface{}{"mode": m.Mode, "case": m.Out.Sample}
+						}
+						a.samples = append(a.samples, smp)
+						a.sampleModes[m.Mode] = true
 					}
 					if m.Out.Foreign != nil {
 						a.foreignN++
